@@ -41,8 +41,8 @@ package leanhelix
 //@ func GetMemberIdsFromBlockProof
 //@   props C02 C12
 //@   ensures [empty.err] len(blockProofBytes) == 0 ==> result1 != nil
-//@   ensures [ok] len(blockProofBytes) > 0 ==> result1 == nil && len(result0) == seq_len(protocol.BlockProofReader(blockProofBytes), "Nodes")
-//@   ensures [ids] len(blockProofBytes) > 0 ==> (forall k :: 0 <= k && k < len(result0) ==> result0[k] == seq_at(protocol.BlockProofReader(blockProofBytes), "Nodes", k).MemberId())
+//@   ensures [ok] result1 == nil ==> len(blockProofBytes) > 0 && len(result0) == seq_len(protocol.BlockProofReader(blockProofBytes), "Nodes")
+//@   ensures [ids] result1 == nil ==> (forall k :: 0 <= k && k < len(result0) ==> result0[k] == seq_at(protocol.BlockProofReader(blockProofBytes), "Nodes", k).MemberId())
 //@   loop iter sendersIterator
 //@     invariant [src] iter_src(sendersIterator) == protocol.BlockProofReader(blockProofBytes)
 //@     invariant [pos] iter_pos(sendersIterator) == len(committeeMembers) && iter_pos(sendersIterator) <= seq_len(protocol.BlockProofReader(blockProofBytes), "Nodes")
